@@ -1,6 +1,7 @@
 pub mod aux;
 pub mod explore;
 pub mod gw;
+pub mod its;
 pub mod refs;
 pub mod report;
 pub mod world;
